@@ -161,9 +161,9 @@ def axiom_audit(modules):
     out = p.stdout + p.stderr
     res = {}
     # "'Name' depends on axioms: [a, b]"  or "'Name' does not depend on any axioms"
-    for m in re.finditer(r"'([^']+)' depends on axioms:\s*\[([^\]]*)\]", out, re.S):
+    for m in re.finditer(r"^'(.+?)' depends on axioms:\s*\[([^\]]*)\]", out, re.S | re.M):
         res[m.group(1)] = sorted(a.strip() for a in m.group(2).replace("\n", " ").split(",") if a.strip())
-    for m in re.finditer(r"'([^']+)' does not depend on any axioms", out):
+    for m in re.finditer(r"^'(.+?)' does not depend on any axioms", out, re.M):
         res[m.group(1)] = []
     return names, res, out, p.returncode
 
